@@ -323,6 +323,13 @@ func runCheck(root, prop, tier string, makeBaseline, verbose, keep bool, onlyFn 
 				violations++
 				exit = 1
 				lines = append(lines, fmt.Sprintf("VIOLATION property=%s replay=%s obligation=%s/bounded at=%s", prop, bp, shortFunc(con.Key), ""))
+			} else if cp := boundedCandidate[con.Key]; cp != "" {
+				// a postcondition that was proved on the unchanged tree now
+				// has a model in the bounded verification condition of the
+				// changed function, and the real run did not contradict it
+				violations++
+				exit = 1
+				lines = append(lines, fmt.Sprintf("VIOLATION property=%s replay=%s obligation=%s/bounded at=%s no-failing-input-found", prop, cp, shortFunc(con.Key), ""))
 			}
 		}
 	}
@@ -471,37 +478,74 @@ func writeReplay(eng *Engine, dir, prop string, o *Obligation) (string, bool) {
 	}
 	rec["solver_outputs"] = outs
 	replayed := false
-	if o.Result.Status != "sat" && o.Result.Status != "unsat" && o.queryFile != "" && (o.Kind == "post" || o.Kind == "bounds" || o.Kind == "nil" || o.Kind == "div" || o.Kind == "panic" || o.Kind == "pre-panic" || o.Kind == "conv") {
-		// no model. First try the query without the assumed facts that carry
-		// quantifiers (earlier postconditions, callee ensures): a model of the
-		// weaker query is only a candidate; it counts only if it replays.
-		if wf, ok := weakenedModel(o.queryFile); ok {
-			o.queryFile = wf
-			o.weakened = true
+	searchable := o.queryFile != "" && (o.Kind == "post" || o.Kind == "bounds" || o.Kind == "nil" || o.Kind == "div" || o.Kind == "panic" || o.Kind == "pre-panic" || o.Kind == "conv")
+	origQuery := o.queryFile
+	seed := int64(1)
+	if s := os.Getenv("VERIF_SEED"); s != "" {
+		if n, err := strconv.ParseInt(s, 10, 64); err == nil {
+			seed = n
+		}
+	}
+	// Candidate inputs, in order: the solver's own model; a model of the
+	// query without quantified assumptions; small random concrete inputs
+	// under which the negated clause is satisfiable. Each candidate counts
+	// only if it replays on the real code.
+	verdict := ""
+	var attempts []string
+	try := func(label string) bool {
+		rp := safeReplay(eng, o, dir, name)
+		if rp == nil {
+			return false
+		}
+		attempts = append(attempts, label)
+		rec["replay"] = rp
+		rec["candidate_source"] = label
+		if ok, _ := rp["confirmed"].(bool); ok {
+			verdict = "confirmed"
+			return true
+		}
+		reason, _ := rp["reason"].(string)
+		if strings.HasPrefix(reason, "ENGINE-MISMATCH") || strings.HasPrefix(reason, "the real outcome satisfies") || strings.HasPrefix(reason, "the real code returned normally") {
+			if verdict == "" {
+				verdict = "contradicted"
+			}
+		} else if verdict != "confirmed" {
+			verdict = "inconclusive"
+		}
+		return false
+	}
+	if o.Result.Status == "sat" {
+		replayed = try("solver model")
+	}
+	if !replayed && searchable && o.Result.Status != "sat" && o.Result.Status != "unsat" {
+		if wf, ok := weakenedModel(origQuery); ok {
+			o.queryFile, o.weakened = wf, true
 			rec["status"] = "sat (with quantified assumptions left out; candidate input only)"
+			replayed = try("model of the query without quantified assumptions")
+			o.queryFile, o.weakened = origQuery, false
 		}
 	}
-	if !o.weakened && o.Result.Status != "sat" && o.Result.Status != "unsat" && o.queryFile != "" && (o.Kind == "post" || o.Kind == "bounds" || o.Kind == "nil" || o.Kind == "div" || o.Kind == "panic" || o.Kind == "pre-panic" || o.Kind == "conv") {
-		// concretisation search over small random inputs
-		seed := int64(1)
-		if s := os.Getenv("VERIF_SEED"); s != "" {
-			if n, err := strconv.ParseInt(s, 10, 64); err == nil {
-				seed = n
+	if !replayed && searchable && o.Result.Status != "unsat" {
+		for round := int64(0); round < 2 && !replayed; round++ {
+			if pins, ok := concretize(o, seed+round*7919, 64,filepath.Join(dir, "conc")); ok {
+				o.pins = pins
+				rec["concretised"] = true
+				rec["status"] = "sat (after fixing the inputs to concrete values)"
+				replayed = try("concretised inputs")
+				if !replayed {
+					o.pins = nil
+				}
+			} else {
+				break
 			}
-		}
-		if pins, ok := concretize(o, seed, 24, filepath.Join(dir, "conc")); ok {
-			o.pins = pins
-			rec["concretised"] = true
-			rec["status"] = "sat (after fixing the inputs to concrete values)"
 		}
 	}
-	if o.Result.Status == "sat" || len(o.pins) > 0 || o.weakened {
-		if rp := safeReplay(eng, o, dir, name); rp != nil {
-			rec["replay"] = rp
-			if ok, _ := rp["confirmed"].(bool); ok {
-				replayed = true
-			}
-		}
+	rec["candidate_attempts"] = attempts
+	if verdict != "" {
+		replayVerdict[path] = verdict
+	}
+	if _, ok := replayVerdict[path]; !ok && (o.Result.Status == "sat" || len(o.pins) > 0) {
+		replayVerdict[path] = "inconclusive"
 	}
 	b, _ := json.MarshalIndent(rec, "", " ")
 	os.WriteFile(path, append(b, '\n'), 0o644)
@@ -517,7 +561,7 @@ func boundedSearch(eng *Engine, fn *ssa.Function, con *Contract, work, replayDir
 		return p, p != ""
 	}
 	done[con.Key] = ""
-	ctx, err := eng.verifyFunction(fn, con, 3)
+	ctx, err := eng.verifyFunction(fn, con, boundedQ+1)
 	if err != nil || ctx == nil {
 		return "", false
 	}
@@ -545,8 +589,18 @@ func boundedSearch(eng *Engine, fn *ssa.Function, con *Contract, work, replayDir
 			done[con.Key] = path
 			return path, true
 		}
+		if o.Kind == "post" && replayVerdict[path] == "inconclusive" && boundedCandidate[con.Key] == "" {
+			boundedCandidate[con.Key] = path
+		}
 	}
 	return "", false
 }
+
+// replayVerdict: replay record path -> confirmed | contradicted | inconclusive.
+var replayVerdict = map[string]string{}
+
+// boundedCandidate: function -> replay record of a postcondition with a model
+// in the bounded run that the real code did not contradict.
+var boundedCandidate = map[string]string{}
 
 var _ = ssa.GlobalDebug
